@@ -342,14 +342,27 @@ fn argument_separator(input: &[u8]) -> ParseResult<()> {
 
 /// Parses an argument value.
 fn argument(input: &[u8]) -> ParseResult<Value<'_>> {
-    characters(input)
-        .or_else(|_| decimal_numeric_program_data(input))
-        .or_else(|_| hexadecimal_numeric_program_data(input))
-        .or_else(|_| binary_numeric_program_data(input))
-        .or_else(|_| octal_numeric_program_data(input))
-        .or_else(|_| single_quoted_string_program_data(input))
-        .or_else(|_| double_quoted_string_program_data(input))
-        .or_else(|_| arbitrary_program_data(input))
+    let parsers: [fn(&[u8]) -> ParseResult<Value<'_>>; 8] = [
+        characters,
+        decimal_numeric_program_data,
+        hexadecimal_numeric_program_data,
+        binary_numeric_program_data,
+        octal_numeric_program_data,
+        single_quoted_string_program_data,
+        double_quoted_string_program_data,
+        arbitrary_program_data,
+    ];
+
+    // Try the alternatives in order. An alternative that ran out of input must
+    // not be overridden by the failure of a later one: the data is incomplete.
+    let mut result = Err(ParseError::SoftError(None));
+    for parser in parsers {
+        result = parser(input);
+        if matches!(result, Ok(_) | Err(ParseError::Incomplete)) {
+            break;
+        }
+    }
+    result
 }
 
 /// Parses multiple arguments separated by commas.
